@@ -64,7 +64,8 @@ def lib_verify_call(call):
 
 
 class Escapes(object):
-    def __init__(self, prog, cg=None, extra_catalog=None, dict_subscripts=None):
+    def __init__(self, prog, cg=None, extra_catalog=None, dict_subscripts=None, extra_sites=None):
+        self.extra_sites = extra_sites  # optional callable(FuncInfo) -> [(ast node, exception class, why)]
         self.prog = prog
         self.cg = cg
         self.memo = {}
@@ -144,6 +145,10 @@ class Escapes(object):
                 out.append((classes, why))
             elif kind == "attr" and isinstance(call.func, ast.Attribute) and call.func.attr == pat:
                 out.append((classes, why))
+            elif kind == "text" and unparse(call.func) == pat:
+                out.append((classes, why))
+            elif kind == "pred" and pat(f, call):
+                out.append((classes, why))
         return out
 
     def of(self, qual):
@@ -190,6 +195,101 @@ class Escapes(object):
                 for c in classes or ():
                     if self.survives(c, n, fnode):
                         out.add((c, "%s at %s:%d" % (unparse(n)[:50], f.module.path, n.lineno)))
+        if self.extra_sites is not None:
+            for (node, c, why) in self.extra_sites(f):
+                if self.survives(c, node, fnode):
+                    out.add((c, "%s at %s:%d (%s)" % (unparse(node)[:50], f.module.path, getattr(node, "lineno", 0), why)))
         self.busy.discard(qual)
         self.memo[qual] = out
         return out
+
+
+# ---- subscripts with a constant index on sequences built from outside data ---------------------------------
+
+def _len_lower_bound(fl, node, name, base_lb):
+    """greatest n such that every path to ``node`` has established len(name) >= n through dominating tests
+    (len(x) < k -> leave, len(x) == base_lb -> leave, `not x` -> leave, `if x:`), starting from base_lb."""
+    from .bounds import facts
+    lb = base_lb
+    changed = True
+    lenx = "len(%s)" % name
+    while changed:
+        changed = False
+        for c in fl.nodes(lambda n: n.kind == "cond"):
+            t = c.ast
+            for arm in ("T", "F"):
+                est = None
+                fx = facts(t, lenx) if isinstance(t, ast.Compare) else {"T": [], "F": []}
+                for fct in fx[arm]:
+                    lo = fct.get("lo")
+                    if lo is not None and lo[0] is None:
+                        est = lo[1]
+                if isinstance(t, ast.Compare) and len(t.ops) == 1 and unparse(t.left) == lenx and isinstance(t.comparators[0], ast.Constant):
+                    k = t.comparators[0].value
+                    if isinstance(t.ops[0], ast.Eq) and arm == "F" and k == lb:
+                        est = lb + 1
+                    if isinstance(t.ops[0], ast.NotEq) and arm == "T" and k == lb:
+                        est = lb + 1
+                if unparse(t) == name and arm == "T":
+                    est = max(lb, 1)
+                if est is None or est <= lb:
+                    continue
+                g = fl.edge_guard(lambda q, t=t: q is t, arm)
+                if fl.dominated([node], guard_edge=g):
+                    lb = est
+                    changed = True
+    return lb
+
+
+def unguarded_constant_subscripts(prog, finfo, origin_ok=None):
+    """[(Subscript node, need, have, why)] for `X[k]` (k an int constant, X a plain local name or parameter
+    whose every reaching definition is a parameter, a .split()/.readlines()/re.split result, or a slice of
+    one) where the dominating tests do not establish len(X) > k (or >= -k for negative k)."""
+    from .flow import Flow
+    fl = Flow(prog, finfo, implicit=False)
+    out = []
+    params = set(finfo.params())
+    for n in fl.cfg.nodes:
+        if n.id not in fl.live or n.ast is None or n.kind in ("entry", "loop_head", "try", "def", "with_exit"):
+            continue
+        from .flow import node_exprs
+        for root in node_exprs(n):
+            for x in walk_no_defs(root):
+                if not (isinstance(x, ast.Subscript) and isinstance(x.ctx, ast.Load) and isinstance(x.value, ast.Name)):
+                    continue
+                k = x.slice
+                kv = None
+                if isinstance(k, ast.Constant) and isinstance(k.value, int) and not isinstance(k.value, bool):
+                    kv = k.value
+                elif isinstance(k, ast.UnaryOp) and isinstance(k.op, ast.USub) and isinstance(k.operand, ast.Constant) and isinstance(k.operand.value, int):
+                    kv = -k.operand.value
+                if kv is None:
+                    continue
+                name = x.value.id
+                defs = fl.defs(name, n)
+                base = None
+                for (dn, rhs) in defs:
+                    if dn.kind == "entry" and name in params:
+                        b = 0
+                    elif rhs is not None and isinstance(rhs, ast.Call) and isinstance(rhs.func, ast.Attribute) and rhs.func.attr in ("split", "rsplit"):
+                        b = 1
+                    elif rhs is not None and isinstance(rhs, ast.Call) and (unparse(rhs.func) in ("re.split",) or
+                                                                            (isinstance(rhs.func, ast.Attribute) and rhs.func.attr in ("readlines", "splitlines"))):
+                        b = 0 if unparse(rhs.func) != "re.split" else 1
+                    elif rhs is not None and isinstance(rhs, ast.Subscript) and isinstance(rhs.slice, ast.Slice):
+                        b = 0
+                    else:
+                        b = None
+                    if b is None:
+                        base = None
+                        break
+                    base = b if base is None else min(base, b)
+                if base is None:
+                    continue
+                if origin_ok is not None and not origin_ok(finfo, name):
+                    continue
+                need = kv + 1 if kv >= 0 else -kv
+                have = _len_lower_bound(fl, n, name, base)
+                if have < need:
+                    out.append((x, need, have, "len(%s) >= %d needed, only >= %d established on some path" % (name, need, have)))
+    return out
